@@ -441,11 +441,41 @@ package swap
 
 // json.Marshal of the message structs (strings and integers only) cannot fail
 //@ func MarshalPeerswapMessage
-//@ trusted
-//@ ensures result2 == nil
-//@ ensures result1 == int(msg.MessageType())
-//@ ensures result0 != nil
+//@ property C21
+//@ ensures @trusted infallible: result2 == nil
+//@ ensures @C21 type-of-message: result2 == nil ==> result1 == int(msg.MessageType())
+//@ ensures @trusted payload: result0 != nil
 //@ assigns nothing
+
+// C21: every message struct reports its own protocol number
+//@ func (SwapInRequestMessage).MessageType
+//@ property C21
+//@ inline
+//@ ensures result == 42069
+//@ func (SwapOutRequestMessage).MessageType
+//@ property C21
+//@ inline
+//@ ensures result == 42071
+//@ func (SwapInAgreementMessage).MessageType
+//@ property C21
+//@ inline
+//@ ensures result == 42073
+//@ func (SwapOutAgreementMessage).MessageType
+//@ property C21
+//@ inline
+//@ ensures result == 42075
+//@ func (OpeningTxBroadcastedMessage).MessageType
+//@ property C21
+//@ inline
+//@ ensures result == 42077
+//@ func (CancelMessage).MessageType
+//@ property C21
+//@ inline
+//@ ensures result == 42079
+//@ func (CoopCloseMessage).MessageType
+//@ property C21
+//@ inline
+//@ ensures result == 42081
 
 // ---- swap-in sender (maker, initiator) ----
 //@ stateunits getSwapInSenderStates C07 C08 C12 C15 C16 C22 C23 C26
@@ -631,36 +661,43 @@ package swap
 //@ assigns nothing
 
 //@ func (*SwapService).OnMessageReceived
-//@ property C09
+//@ property C09 C21
+//@ nopanic
 //@ requires s != nil && s.swapServices != nil && s.activeSwaps != nil && ghost.msgPeer == peerId && peerId != "" && !ghost.dirty
 
 //@ func (*SwapService).OnSwapOutAgreementReceived
-//@ property C09
+//@ requires @C21,in:payload within-size-limit: len(payload) <= 102400
+//@ property C21 C09
 //@ requires s != nil && s.activeSwaps != nil && message != nil && !ghost.dirty
 //@ requires @C09 sender-is-counterparty: has(s.activeSwaps, message.SwapId.String()) && s.activeSwaps[message.SwapId.String()].Data.PeerNodeId == ghost.msgPeer
 
 //@ func (*SwapService).OnSwapInAgreementReceived
-//@ property C09
+//@ requires @C21,in:payload within-size-limit: len(payload) <= 102400
+//@ property C21 C09
 //@ requires s != nil && s.activeSwaps != nil && msg != nil && !ghost.dirty
 //@ requires @C09 sender-is-counterparty: has(s.activeSwaps, msg.SwapId.String()) && s.activeSwaps[msg.SwapId.String()].Data.PeerNodeId == ghost.msgPeer
 
 //@ func (*SwapService).OnTxOpenedMessage
-//@ property C09
+//@ requires @C21,in:payload within-size-limit: len(payload) <= 102400
+//@ property C21 C09
 //@ requires s != nil && s.activeSwaps != nil && message != nil && !ghost.dirty
 //@ requires @C09 sender-is-counterparty: has(s.activeSwaps, message.SwapId.String()) && s.activeSwaps[message.SwapId.String()].Data.PeerNodeId == ghost.msgPeer
 
 //@ func (*SwapService).OnCancelReceived
-//@ property C09
+//@ requires @C21,in:payload within-size-limit: len(payload) <= 102400
+//@ property C21 C09
 //@ requires s != nil && s.activeSwaps != nil && cancelMsg != nil && !ghost.dirty
 //@ requires @C09 sender-is-counterparty: has(s.activeSwaps, swapId.String()) && s.activeSwaps[swapId.String()].Data.PeerNodeId == ghost.msgPeer
 
 //@ func (*SwapService).OnCoopCloseReceived
-//@ property C09
+//@ requires @C21,in:payload within-size-limit: len(payload) <= 102400
+//@ property C21 C09
 //@ requires s != nil && s.activeSwaps != nil && coopCloseMessage != nil && !ghost.dirty
 //@ requires @C09 sender-is-counterparty: has(s.activeSwaps, swapId.String()) && s.activeSwaps[swapId.String()].Data.PeerNodeId == ghost.msgPeer
 
 //@ func (*SwapService).OnSwapOutRequestReceived
-//@ property C09 C10 C11
+//@ requires @C21,in:payload within-size-limit: len(payload) <= 102400
+//@ property C21 C09 C10 C11
 //@ forall k0 string
 //@ requires service: s != nil && s.swapServices != nil && s.activeSwaps != nil
 //@ requires message: message != nil
@@ -670,7 +707,8 @@ package swap
 //@ ensures @C09 others-untouched: k0 != old(swapId.String()) ==> (has(s.activeSwaps, k0) == old(has(s.activeSwaps, k0)) && s.activeSwaps[k0] == old(s.activeSwaps[k0]))
 
 //@ func (*SwapService).OnSwapInRequestReceived
-//@ property C09 C10 C11
+//@ requires @C21,in:payload within-size-limit: len(payload) <= 102400
+//@ property C21 C09 C10 C11
 //@ forall k0 string
 //@ requires service: s != nil && s.swapServices != nil && s.activeSwaps != nil
 //@ requires message: message != nil
